@@ -88,6 +88,8 @@ int main (int argc, char** argv)
     Jones<double> a = jones_in ("a"), b = jones_in ("b");
     Jones<float> af (a);
     out_jones ("r", af * b);
+    if (!symbolic) { Jones<double> ad (af); pexpect ("Jones<float> * Jones<double>", af * b, pmul (p2 (ad), p2 (b)));
+      expect ("Jones<float> -> Jones<double> keeps j10", ad.j10, cd (float (a.j10.real ()), float (a.j10.imag ()))); expect ("Jones<float> -> Jones<double> keeps j01", ad.j01, cd (float (a.j01.real ()), float (a.j01.imag ()))); }
   });
   fn ("jones_add_double_float", [] {
     Jones<double> a = jones_in ("a"), b = jones_in ("b");
